@@ -219,8 +219,22 @@ def run(facts, rep):
             if callers and all(c == REDUCE or c in phases for c in callers):
                 phases.add(b.defp)
                 changed = True
+    # private helpers taking `&mut Ratio` are steps of the API functions that call them: executed in place there
+    # (their own parameters carry no invariant - e.g. that (c, d) are the components of a canonical value)
+    in_place = set()
+    for b in subjects:
+        if b.defp in phases or b.defp in (REDUCE, NEW_RAW) or b.d.get('vis', 'pub') == 'pub' or (b.impl and b.impl.get('trait')):
+            continue
+        if b.arg_count >= 1 and b.local_ty(1).startswith('&mut ') and b.locals[1].get('adt') == ADT and rcg.get(b.defp):
+            if all(c in clean_fns for c in rcg.get(b.defp, ())):
+                in_place.add(b.defp)
+    clean_fns -= in_place
+    inl = private_helper(exclude=('reduce', 'new_raw'), also=()) if in_place else None
     for b in sorted(subjects, key=lambda x: x.defp):
         if b.defp == REDUCE:
+            continue
+        if b.defp in in_place:
+            rep.ok('E1.R1-shortcut-paths', '%s|private step' % b.defp, 'analysed in place in %s' % sorted(x.split('::')[-1] for x in rcg.get(b.defp, ()))[:3])
             continue
         if b.defp in phases:
             rep.ok('E1.R1-shortcut-paths', '%s|private phase of reduce()' % b.defp, 'only called from the normaliser; analysed in place (R0)')
@@ -238,7 +252,8 @@ def run(facts, rep):
             continue
         rep.saw(b)
         try:
-            paths = [p for p in paths_of(b) if p.end == 'return']
+            calls_step = inl is not None and any((c.callee or '') in in_place for c in b.calls())
+            paths = [p for p in (paths_of(b, inline=lambda cb, nm: cb.defp in in_place) if calls_step else paths_of(b)) if p.end == 'return']
         except TooManyPaths:
             rep.indet('E1 Ratio: path explosion in %s' % b.defp)
             continue
